@@ -132,6 +132,9 @@ func genIdent(r *Rng) string {
 	if s == "_" {
 		return "x_"
 	}
+	if len(s) >= 3 && s[0] == 'Q' && s[len(s)-1] == 'z' {
+		return s + "x" // Q<i>z is reserved: the oracles recognise referenced symbols by it
+	}
 	return s
 }
 
@@ -200,7 +203,11 @@ func genHintName(r *Rng) string {
 	case 2:
 		return pick(r, []string{"d", "d1", "d2", "pkg_d", "pkg", "x", "rand", "fmt", "C", "err"})
 	default:
-		return genIdent(r)
+		n := genIdent(r)
+		if qNameRe.MatchString(n) {
+			n += "x" // Q<i>z is the oracle's naming convention for referenced symbols
+		}
+		return n
 	}
 }
 
